@@ -816,7 +816,8 @@ func (ex *Exec) checkFrame(st *State, site string) {
 			continue
 		}
 		x := Sym("x!fr", SRef)
-		isOld := Or(Select(alloc0, x), And(Lt(x, IntLit(0)), Select(alloc0, App(owner.Name, SRef, x))))
+		// allocated objects have positive references; negative ones are arrays embedded in an object (and string storage)
+		isOld := Or(And(Lt(IntLit(0), x), Select(alloc0, x)), And(Lt(x, IntLit(0)), Select(alloc0, App(owner.Name, SRef, x))))
 		switch {
 		case strings.HasPrefix(key, "F "):
 			var excl []*Term
@@ -1920,6 +1921,12 @@ func (ex *Exec) intrinsic(st *State, fr *Frame, key string, callee *ssa.Function
 		k(st, scalar(e))
 		return true
 	case "fmt.Sprintf", "fmt.Sprint", "fmt.Sprintln":
+		if key == "fmt.Sprintf" {
+			if r := ex.sprintfConcat(st, instr, args); r != nil {
+				k(st, scalar(r))
+				return true
+			}
+		}
 		r := ex.fresh("sprintf", ex.strSort())
 		st.assume(ex.strLenFacts(r))
 		k(st, scalar(r))
@@ -2028,6 +2035,55 @@ func callArg(instr ssa.Instruction, i int) ssa.Value {
 }
 
 // wrappedOperands returns the error operands matched by %w verbs.
+// sprintfConcat models fmt.Sprintf for a constant format made of literal text and plain %s verbs whose operands are
+// strings: the result is the concatenation.  Any other format: nil (the result is an arbitrary string).
+func (ex *Exec) sprintfConcat(st *State, instr ssa.Instruction, args []*Val) *Term {
+	c, ok := callArg(instr, 0).(*ssa.Const)
+	if !ok || c.Value == nil || c.Value.Kind() != constant.String || len(args) < 2 || args[1].Sl == nil {
+		return nil
+	}
+	format := constant.StringVal(c.Value)
+	var lits []string
+	cur := ""
+	for i := 0; i < len(format); i++ {
+		if format[i] != '%' {
+			cur += string(format[i])
+			continue
+		}
+		if i+1 >= len(format) || format[i+1] != 's' {
+			return nil
+		}
+		i++
+		lits = append(lits, cur)
+		cur = ""
+	}
+	nverbs := len(lits)
+	lits = append(lits, cur)
+	sl := args[1].Sl
+	// the number of operands must be the number of verbs (otherwise fmt adds %!s(MISSING) / %!(EXTRA ..))
+	if sl.Len.String() != ex.intConst(int64(nverbs)).String() {
+		return nil
+	}
+	anyT := types.NewInterfaceType(nil, nil)
+	strT := types.Typ[types.String]
+	unbox := ex.env.d.Func(symSafe("unbox "+ex.env.typeKey(strT)+" "), ex.strSort(), SRef)
+	res := ex.strConst(lits[0])
+	for j := 0; j < nverbs; j++ {
+		loc := &Loc{Kind: LElem, Arr: sl.Arr, Idx: ex.iadd(sl.Off, ex.intConst(int64(j))), Base: anyT, Type: anyT}
+		v := ex.loadLoc(st, loc)
+		// %s of a string operand prints the string; of anything else: an arbitrary string
+		other := ex.fresh("sprintf_arg", ex.strSort())
+		st.assume(ex.strLenFacts(other))
+		piece := Ite(And(Neq(v.T, IntLit(0)), Eq(ex.dtype(v.T), ex.typeTag(strT))), App(unbox.Name, ex.strSort(), v.T), other)
+		res = ex.strCat(res, piece)
+		if lits[j+1] != "" {
+			res = ex.strCat(res, ex.strConst(lits[j+1]))
+		}
+	}
+	ex.trusted["fmt.Sprintf with a constant format of literal text and %s verbs over string operands is concatenation"] = true
+	return res
+}
+
 func (ex *Exec) wrappedOperands(st *State, format string, args []*Val) []*Term {
 	if len(args) < 2 || args[1].Sl == nil {
 		return nil
